@@ -116,9 +116,28 @@ def run_case(case):
                 for root, _, files in os.walk(out):
                     for f in files:
                         books[os.path.relpath(os.path.join(root, f), out).upper()] = {formulas.BOOK: openpyxl.load_workbook(os.path.join(root, f))}
-                diff = m.compare(*[os.path.join(out, f) for f in sorted(os.listdir(out))], solution=sol)
+                files = [os.path.join(out, f) for f in sorted(os.listdir(out))]
+                diff = m.compare(*files, solution=sol)
                 if diff:
                     fails.append(Fail('compare-reports-difference', got=str(diff[:2])[:200], exp='[]', **desc))
+                # a different solution written over the same files, compared again in the same process
+                sol_b = m.calculate({X.lib_id(B, sn, 'A1'): 7, X.lib_id(B, sn, 'A5'): False})
+                m.write(solution=sol_b, dirpath=out)
+                diff = m.compare(*files, solution=sol_b)
+                if diff:
+                    fails.append(Fail('compare-reports-difference', got=str(diff[:2])[:200], exp='[]', second_write=True, **desc))
+                wb2 = openpyxl.load_workbook(files[0])
+                ws2 = [w for w in wb2.worksheets if w.title.upper() == 'T']
+                if not ws2 or ws2[0]['A1'].value != 8:
+                    fails.append(Fail('cell-differs', got=repr(ws2[0]['A1'].value if ws2 else None), exp='8', node='T!A1', coord='A1', kind='float', shape='1x1', second_write=True, **desc))
+                m.write(solution=sol, dirpath=out)          # back to the solution that is inspected below
+                books = {}
+                for root, _, fs in os.walk(out):
+                    for f in fs:
+                        books[os.path.relpath(os.path.join(root, f), out).upper()] = {formulas.BOOK: openpyxl.load_workbook(os.path.join(root, f))}
+                diff = m.compare(*files, solution=sol)
+                if diff:
+                    fails.append(Fail('compare-reports-difference', got=str(diff[:2])[:200], exp='[]', third_write=True, **desc))
             ex += 1
         except Exception as e:
             os.chdir(cwd)
